@@ -453,3 +453,33 @@ PROPS["C03"] = {
         ],
     },
 }
+
+PROPS["C05"] = {
+    "pkg": "c05", "level": "fault_enumeration",
+    "technique": "structured fault injection with rapid on the deterministic simulator: a real message in flight to the victim (any protocol, any round, incl. the presign abort "
+                 "rounds reached through a deviating presigner) is replaced by a malformed version - one CBOR node altered by one of 33 shape-level malformations, one of 21 "
+                 "header malformations, or raw bytes - and handed to CanAccept and Accept; oracle = both calls return (no panic, bounded time, memory capped by RLIMIT_AS), "
+                 "the handler is afterwards running or cleanly ended, and the session continues without crash; plus native coverage-guided fuzz targets for the stored-material "
+                 "and wire decoders in the thorough tier",
+    "level_text": "Malformations: null, absent, empty/zero/truncated/extended/1 MiB byte strings, wrong CBOR types, empty and 100k-element arrays, out-of-range integers, "
+                  "duplicate and unknown keys, identity points, corrupted nested encodings and count prefixes (0, +1, 0xFFFFFFFF); headers: recipient/sender/round/broadcast flag/"
+                  "SSID/data/echo-hash variants and nil messages. Process death (out-of-memory, fatal error) is attributed to the journaled case and replayed.",
+    "level_note": "Each shard runs under RLIMIT_AS = 8 GiB; a step may take at most 150 s (a CMP step takes <= 3 s). Forged senders are allowed here (the oracle never looks at "
+                  "who is blamed).",
+    "rule": "case = (protocol, deviation used to reach abort rounds, template message kind r<round>/bc, generic path, malformation kind); non-trivial iff the malformation was "
+            "applicable to the chosen message; distinct = distinct class keys",
+    "mem_gib": 8,
+    "assumptions": ["RLIMIT_AS is enforced by the kernel"],
+    "tiers": {
+        "quick": [
+            {"run": "^TestCheap$", "checks": 6000, "shards": 6},
+            {"run": "^TestDoerner$", "checks": 1200, "shards": 4},
+            {"run": "^TestCMP$", "checks": 60, "shards": 12, "timeout": 2400},
+        ],
+        "thorough": [
+            {"run": "^TestCheap$", "checks": 200000, "shards": 6},
+            {"run": "^TestDoerner$", "checks": 40000, "shards": 4},
+            {"run": "^TestCMP$", "checks": 2400, "shards": 16, "timeout": 9000},
+        ],
+    },
+}
